@@ -1234,7 +1234,8 @@ COQ_RESERVED = {"in", "let", "fun", "if", "then", "else", "match", "end", "as", 
 class VParser:
     """Expressions of the vector code (C and Rust).
        AST: ('num', v, suffix, ishex) ('var', x) ('call', f, [args]) ('meth', recv, m, [args])
-            ('un', op, a) ('bin', op, a, b) ('cast', typename, a) ('cond', c, a, b) ('tuple', [es])"""
+            ('un', op, a) ('bin', op, a, b) ('cast', typename, a) ('cond', c, a, b) ('tuple', [es])
+            ('index', array, index)"""
 
     def __init__(self, toks, name, lang):
         self.t, self.i, self.name, self.lang = toks, 0, name, lang
@@ -1285,7 +1286,7 @@ class VParser:
 
     def unary(self):
         k, v = self.peek()
-        if k == "op" and v in ("-", "!", "~"):
+        if k == "op" and (v in ("-", "!", "~") or (v == "&" and self.lang == "c")):
             self.next()
             return ("un", v, self.unary())
         return self.postfix(self.primary())
@@ -1361,6 +1362,12 @@ class VParser:
                 self.next()
                 e = ("meth", e, m, self.args())
                 continue
+            if self.peek() == ("op", "["):      # array indexing: ('index', array, index)
+                self.next()
+                i = self.expr(0)
+                self.expect("op", "]")
+                e = ("index", e, i)
+                continue
             return e
 
 
@@ -1401,6 +1408,20 @@ def _intrinsic_table():
     t["_mm512_maskz_set1_epi32"] = ("mm512_maskz_set1_epi32", [K, "i"], V)
     t["_mm512_mask_set1_epi32"] = ("mm512_mask_set1_epi32", [V, K, "i"], V)
     t["_mm512_movm_epi32"] = ("mm512_movm_epi32", [K], V)
+    # the round helpers and the transposes (gen_kernel_rounds)
+    for p, n in (("_mm_", 4), ("_mm256_", 8), ("_mm512_", 16)):
+        V, cp = ("v", n), p[1:]
+        t[p + "slli_epi32"] = (cp + "slli_epi32", [V, "imm"], V)
+        t[p + "ror_epi32"] = (cp + "ror_epi32", [V, "imm"], V)
+        for op in ("unpacklo_epi32", "unpackhi_epi32", "unpacklo_epi64", "unpackhi_epi64"):
+            t[p + op] = (cp + op, [V, V], V)
+    for p, n in (("_mm_", 4), ("_mm256_", 8)):
+        t[p + "shuffle_epi8"] = (p[1:] + "shuffle_epi8", [("v", n), ("v", n)], ("v", n))
+        t[p + "set_epi8"] = (p[1:] + "set_epi8", ["i"] * (4 * n), ("v", n))
+    t["_mm_shufflelo_epi16"] = ("mm_shufflelo_epi16", [("v", 4), "imm"], ("v", 4))
+    t["_mm_shufflehi_epi16"] = ("mm_shufflehi_epi16", [("v", 4), "imm"], ("v", 4))
+    t["_mm256_permute2x128_si256"] = ("mm256_permute2x128_si256", [("v", 8), ("v", 8), "imm"], ("v", 8))
+    t["_mm512_shuffle_i32x4"] = ("mm512_shuffle_i32x4", [("v", 16), ("v", 16), "imm"], ("v", 16))
     return t
 
 
@@ -1444,6 +1465,8 @@ class VecFile:
         self.order = []      # emitted definitions, dependency order
         self.busy = set()
         self.used = set()    # intrinsics that occur
+        self.afun = {}       # functions over arrays of registers: name -> (coq name, [('a', lanes, size) | 'nat' | 'bytes2'],
+                             #   index of the in-out array parameter whose final contents are returned, or None)
 
     # ---- common --------------------------------------------------------
     def ident(self, x, name):
@@ -1481,9 +1504,7 @@ class VecFile:
         texts = []
         for kind, a in zip(kinds, argasts):
             if kind == "imm":
-                if a[0] != "num":
-                    raise AnchorError(f"{name}: {fname}: immediate operand is not a literal: {a!r}")
-                texts.append(f"{a[1]}%Z")
+                texts.append(self.imm_text(a, f"{name}: {fname}"))
             elif kind == "i" or kind[0] in "su":
                 texts.append(scalar_arg(a, kind))
             else:
@@ -1493,12 +1514,38 @@ class VecFile:
                 texts.append(t)
         return "(" + " ".join([coq] + texts) + ")", ret
 
+    def imm_text(self, a, name):
+        """compile-time constant operand: a literal, a constant expression over literals (`32 - 12`), or
+           (C) an object-like macro `#define NAME <literal>` of this file.  The text is kept as written."""
+        def go(a):
+            if a[0] == "num":
+                return hex(a[1]) if a[3] else str(a[1])
+            if a[0] == "bin" and a[1] in ("+", "-", "*"):
+                return f"({go(a[2])} {a[1]} {go(a[3])})"
+            if a[0] == "var" and self.lang == "c":
+                ms = re.findall(r"^[ \t]*#[ \t]*define[ \t]+" + re.escape(a[1]) + r"[ \t]+(\S+)[ \t]*$", self.text, re.M)
+                if len(ms) != 1:
+                    raise AnchorError(f"{name}: {len(ms)} object-like definitions of macro {a[1]}")
+                toks = vtokenize(ms[0], name)
+                if len(toks) != 1 or toks[0][0] != "num":
+                    raise AnchorError(f"{name}: macro {a[1]} is not an integer literal")
+                return go(("num",) + toks[0][1])
+            raise AnchorError(f"{name}: immediate operand is not a constant: {a!r}")
+        t = go(a)
+        return f"{t}%Z"
+
     def vexpr(self, ast, env, name, items=None):
         """vector / mask expression -> (text, kind)"""
         if ast[0] == "var":
             if ast[1] not in env or env[ast[1]][0][0] not in "vk":
                 raise AnchorError(f"{name}: {ast[1]} is not a vector variable")
             return ast[1], env[ast[1]][0]
+        if ast[0] == "call" and self.loader(ast[1]) is not None:
+            coq, lanes = self.loader(ast[1])
+            if len(ast[2]) != 1:
+                raise AnchorError(f"{name}: {ast[1]} takes one pointer")
+            buf, off = self.ptr_expr(ast[2][0], env, name)
+            return f"({coq} {buf} {off})", ("v", lanes)
         if ast[0] == "call":
             if self.lang == "c":
                 sa = lambda a, kind: self.c_conv(*self.c_scalar(a, env, name), kind)
@@ -1508,7 +1555,711 @@ class VecFile:
             if k[0] not in "vk":
                 raise AnchorError(f"{name}: {ast[1]} does not return a vector")
             return t, k
+        if ast[0] == "index":
+            return self.array_read(ast, env, name)
         raise AnchorError(f"{name}: not a vector expression: {ast!r}")
+
+    # ---- functions over arrays of registers (round, transpose_vecs) -----
+    # An array parameter `__m128i v[16]` / `v: &mut [__m128i; 16]` is a Coq `list vec`.  Every element access
+    # must have a literal index.  env[arr] = (('a', lanes, size), state) where state['cur'][i] is the Coq
+    # term that currently denotes arr[i]: initially the pattern variable arr<i> (style 'match': the body is
+    # wrapped in `match arr with [arr0; ...; arr<size-1>] => ... | _ => arr end`) or `(vk arr i)`
+    # (style 'nth'), and after a store `arr[i] = e` the variable bound by the emitted `let`.
+    def const_usize(self, text, name):
+        """array length: a literal, or the file's DEGREE (`#define DEGREE n` / `pub const DEGREE: usize = n;`)"""
+        text = text.strip()
+        if re.fullmatch(r"[0-9]+", text):
+            return int(text)
+        if not re.fullmatch(r"[A-Za-z_]\w*", text):
+            raise AnchorError(f"{name}: unsupported array length {text!r}")
+        if self.lang == "c":
+            ms = re.findall(r"^[ \t]*#[ \t]*define[ \t]+" + re.escape(text) + r"[ \t]+([0-9]+)[ \t]*$", self.text, re.M)
+        else:
+            ms = re.findall(r"\bconst\s+" + re.escape(text) + r"\s*:\s*usize\s*=\s*([0-9]+)\s*;", self.text)
+        if len(ms) != 1:
+            raise AnchorError(f"{name}: {len(ms)} definitions of the constant {text}")
+        return int(ms[0])
+
+    def msg_schedule_ok(self, name):
+        """MSG_SCHEDULE must be the crate-level / blake3_impl.h table (gen/GenConsts.v rs_/c_MSG_SCHEDULE)"""
+        if self.lang == "rs":
+            if re.search(r"\b(?:const|static|let)\s+MSG_SCHEDULE\b", self.text):
+                raise AnchorError(f"{name}: file-local definition of MSG_SCHEDULE")
+            m = find1(r"use\s+crate::\{([^}]*)\}", self.text, f"{name}.use")
+            if "MSG_SCHEDULE" not in [x.strip() for x in m.group(1).split(",")]:
+                raise AnchorError(f"{name}: MSG_SCHEDULE is not imported from the crate root")
+        else:
+            if re.search(r"\bMSG_SCHEDULE\s*\[[^\]]*\]\s*\[[^\]]*\]\s*=", self.text) or \
+               re.search(r"#\s*define\s+MSG_SCHEDULE\b", self.text):
+                raise AnchorError(f"{name}: file-local definition of MSG_SCHEDULE")
+            find1(r'#\s*include\s+"blake3_impl\.h"', self.text, f"{name}.include")
+            hdr = strip_comments(src("c/blake3_impl.h"))
+            find1(r"static\s+const\s+uint8_t\s+MSG_SCHEDULE\s*\[\s*7\s*\]\s*\[\s*16\s*\]\s*=", hdr, "blake3_impl.h MSG_SCHEDULE")
+
+    def array_read(self, ast, env, name):
+        arr, idx = ast[1], ast[2]
+        if arr[0] != "var" or arr[1] not in env or env[arr[1]][0][0] != "a":
+            raise AnchorError(f"{name}: indexing of something that is not an array parameter: {ast!r}")
+        (_, lanes, size), st = env[arr[1]]
+        if idx[0] == "num":
+            if not idx[1] < size:
+                raise AnchorError(f"{name}: index {idx[1]} out of the bounds of {arr[1]}[{size}]")
+            st["literal"] = True
+            if st.get("whole") is not None:
+                return f"(vk {st['whole']} {idx[1]})", ("v", lanes)
+            if st["cur"] is None:
+                raise AnchorError(f"{name}: read of the uninitialised array {arr[1]}")
+            return st["cur"][idx[1]], ("v", lanes)
+        # m[(size_t)MSG_SCHEDULE[r][k]]  /  m[MSG_SCHEDULE[r][k] as usize]
+        want = "size_t" if self.lang == "c" else "usize"
+        if (idx[0] == "cast" and idx[1] == want and idx[2][0] == "index" and idx[2][2][0] == "num"
+                and idx[2][1][0] == "index" and idx[2][1][1] == ("var", "MSG_SCHEDULE") and idx[2][1][2][0] == "var"):
+            r, k = idx[2][1][2][1], idx[2][2][1]
+            if r not in env or env[r][1] != "nat":
+                raise AnchorError(f"{name}: MSG_SCHEDULE row {r!r} is not the round-number parameter")
+            if not k < 16 or size != 16:
+                raise AnchorError(f"{name}: MSG_SCHEDULE column {k} / array of {size} vectors")
+            if st["stored"]:
+                raise AnchorError(f"{name}: {arr[1]} is both stored into and indexed by the message schedule")
+            self.msg_schedule_ok(name)
+            st["sched"] = True
+            return (f"(mw [] {arr[1]} {r} {k})" if self.lang == "rs" else f"(c_mw {arr[1]} {r} {k})"), ("v", lanes)
+        raise AnchorError(f"{name}: unsupported index expression {idx!r}")
+
+    def array_function(self, fname, style):
+        """void function over arrays of registers -> Coq function returning the final contents of the one array
+           that is stored into.  Returns (coq name, [parameter names], lanes, size of the result array)."""
+        name = f"{self.rel}:{fname}"
+        if self.lang == "c":
+            hdr = r"(?:\bINLINE|\bstatic\s+inline|\bstatic)\s+void\s+" + re.escape(fname) + r"\s*\(([^()]*)\)\s*\{"
+        else:
+            hdr = r"\bfn\s+" + re.escape(fname) + r"\s*\(([^()]*)\)\s*\{"
+        ms = list(re.finditer(hdr, self.text))
+        if len(ms) != 1:
+            raise AnchorError(f"anchor {name}: {len(ms)} definitions found")
+        body = fn_body(self.text, hdr, name).strip()
+        env, params, names = {}, [], set()
+        for p in _split_top(ms[0].group(1), ",", name):
+            if not p.strip():
+                continue
+            if self.lang == "c":
+                pm = re.fullmatch(r"\s*([A-Za-z_]\w*)\s+([A-Za-z_]\w*)\s*(?:\[\s*(\w+)\s*\])?\s*", p)
+                if not pm:
+                    raise AnchorError(f"{name}: cannot parse parameter {p!r}")
+                ty, x, size, mut = pm.group(1), pm.group(2), pm.group(3), True
+            else:
+                pm = re.fullmatch(r"\s*([A-Za-z_]\w*)\s*:\s*(?:&\s*(mut\s+)?\[\s*([A-Za-z_]\w*)\s*;\s*(\w+)\s*\]|([A-Za-z_]\w*))\s*", p)
+                if not pm:
+                    raise AnchorError(f"{name}: cannot parse parameter {p!r}")
+                x, mut = pm.group(1), bool(pm.group(2))
+                ty, size = (pm.group(3), pm.group(4)) if pm.group(3) else (pm.group(5), None)
+            x = self.ident(x, name)
+            if size is not None:
+                t = self.c_type(ty, name) if self.lang == "c" else self.rs_type(ty, name)
+                if t[0] != "v":
+                    raise AnchorError(f"{name}: array parameter {p!r} is not an array of registers")
+                n = self.const_usize(size, name)
+                if style == "match":
+                    cur = [f"{x}{i}" for i in range(n)]
+                    for c in cur:
+                        names.add(c)
+                else:
+                    cur = [f"(vk {x} {i})" for i in range(n)]
+                env[x] = (("a", t[1], n), {"cur": cur, "mut": mut, "stored": set(), "literal": False, "sched": False})
+                params.append((x, "list vec"))
+            else:
+                t = self.c_type(ty, name) if self.lang == "c" else self.rs_type(ty, name)
+                if t != ("u", 64):
+                    raise AnchorError(f"{name}: unsupported scalar parameter {p!r}")
+                env[x] = (t, "nat")          # only usable as the row of MSG_SCHEDULE
+                params.append((x, "nat"))
+            if x in names:
+                raise AnchorError(f"{name}: name clash on {x}")
+            names.add(x)
+        if self.lang == "rs":
+            while True:
+                um = re.fullmatch(r"unsafe\s*\{(.*)\}", body, re.S)
+                if not um:
+                    break
+                try:
+                    _split_top(um.group(1), ";", name)
+                except AnchorError:
+                    break
+                body = um.group(1).strip()
+        stmts = [s.strip() for s in _split_top(body, ";", name)]
+        if stmts[-1] != "":
+            raise AnchorError(f"{name}: trailing text {stmts[-1]!r}")
+
+        def fresh(x):
+            if x in names:
+                raise AnchorError(f"{name}: redeclaration of / name clash on {x}")
+            names.add(x)
+            return x
+        lets = []
+        for st in stmts[:-1]:
+            sm = re.fullmatch(r"([A-Za-z_]\w*)\s*\[\s*([0-9]+)\s*\]\s*=(?!=)\s*(.*)", st, re.S)
+            if sm:                                                   # arr[i] = e
+                a, i = sm.group(1), int(sm.group(2))
+                if a not in env or env[a][0][0] != "a":
+                    raise AnchorError(f"{name}: store into {a}, which is not an array parameter")
+                (_, lanes, size), ast_ = env[a]
+                if not ast_["mut"]:
+                    raise AnchorError(f"{name}: store through the shared reference {a}")
+                if ast_["sched"]:
+                    raise AnchorError(f"{name}: {a} is both stored into and indexed by the message schedule")
+                if not i < size:
+                    raise AnchorError(f"{name}: index {i} out of the bounds of {a}[{size}]")
+                e, k = self.vexpr(vparse(sm.group(3), name, self.lang), env, name)
+                if k != ("v", lanes):
+                    raise AnchorError(f"{name}: value of kind {k} stored into {a}[{i}]")
+                x = f"{a}{i}" if style == "match" else f"{a}_{i}"
+                if style != "match" and i not in ast_["stored"]:
+                    fresh(x)
+                lets.append((x, e))
+                ast_["cur"][i] = x
+                ast_["stored"].add(i)
+                ast_["literal"] = True
+                continue
+            if self.lang == "c":
+                sm = re.fullmatch(r"((?:const\s+)?[A-Za-z_]\w*)\s+([A-Za-z_]\w*)\s*=(?!=)\s*(.*)", st, re.S)
+                tm = None
+            else:
+                sm = re.fullmatch(r"let\s+([A-Za-z_]\w*)\s*()=(?!=)\s*(.*)", st, re.S)
+                tm = re.fullmatch(r"let\s*\(\s*([A-Za-z_]\w*)\s*,\s*([A-Za-z_]\w*)\s*,?\s*\)\s*=(?!=)\s*(.*)", st, re.S)
+            if tm:                                                   # let (x, y) = helper(...)
+                ast = vparse(tm.group(3), name, "rs")
+                if ast[0] != "call" or ast[1] in INTRINSICS:
+                    raise AnchorError(f"{name}: unsupported tuple initialiser {ast!r}")
+                coq, kinds, ret, monadic = self.function(ast[1])
+                if monadic or not isinstance(ret, list) or len(ret) != 2 or len(kinds) != len(ast[2]):
+                    raise AnchorError(f"{name}: {ast[1]} is not a helper returning a pair of registers")
+                args = []
+                for kind, a in zip(kinds, ast[2]):
+                    t, k = self.vexpr(a, env, name)
+                    if k != kind:
+                        raise AnchorError(f"{name}: {ast[1]}: operand of kind {k}, expected {kind}")
+                    args.append(t)
+                x, y = self.ident(tm.group(1), name), self.ident(tm.group(2), name)
+                fresh(x)
+                fresh(y)
+                lets.append((f"'({x}, {y})", "(" + " ".join([coq] + args) + ")"))
+                env[x], env[y] = (ret[0], "V"), (ret[1], "V")
+                continue
+            if sm:                                                   # T x = e  /  let x = e
+                x = self.ident(sm.group(2) if self.lang == "c" else sm.group(1), name)
+                e, k = self.vexpr(vparse(sm.group(3), name, self.lang), env, name)
+                if self.lang == "c" and self.c_type(sm.group(1), name) != k:
+                    raise AnchorError(f"{name}: {x}: value of kind {k}, declared {sm.group(1)}")
+                fresh(x)
+                lets.append((x, e))
+                env[x] = (k, "V")
+                continue
+            raise AnchorError(f"{name}: unrecognised statement {st!r}")
+        outs = [(x, t, st) for x, (t, st) in env.items() if t[0] == "a" and st["stored"]]
+        if len(outs) != 1:
+            raise AnchorError(f"{name}: {len(outs)} arrays are stored into, expected one")
+        x, (_, lanes, size), st = outs[0]
+        for y, (t, sty) in env.items():
+            if t[0] == "a" and not (sty["literal"] or sty["sched"]):
+                raise AnchorError(f"{name}: array parameter {y} is never used")
+            if t[0] == "a" and y != x and sty["literal"] and style == "match":
+                raise AnchorError(f"{name}: literal indexing of a second array {y} is not supported")
+        coq = f"{self.prefix}_{fname}"
+        ptxt = "".join(f" ({y} : {cty})" for y, cty in params)
+        d = f"(* {self.rel}: {fname} *)\nDefinition {coq}{ptxt} : list vec :=\n"
+        result = "[" + "; ".join(st["cur"]) + "]"
+        if style == "match":
+            d += f"  match {x} with\n  | [" + "; ".join(f"{x}{i}" for i in range(size)) + "] =>\n"
+            d += "".join(f"    let {v} := {e} in\n" for v, e in lets) + f"    {result}\n  | _ => {x}\n  end.\n"
+        else:
+            d += "".join(f"  let {v} := {e} in\n" for v, e in lets) + f"  {result}.\n"
+        self.order.append(d)
+        sig = [(env[y][0] if cty == "list vec" else "nat") for y, cty in params]
+        self.afun[fname] = (coq, sig, [y for y, _ in params].index(x))
+        return coq, [y for y, _ in params], lanes, size
+
+    # ---- regions: straight-line code over registers, arrays of registers and byte pointers ----------
+    # (transpose_msg_vecs*, the per-block body of hashN).  Offsets into the inputs are `nat` (pointer
+    # arithmetic is not range-checked by the code either); a pointer is a pair (byte list, offset).
+    LOADS = {"_mm_loadu_si128": ("mm_loadu_si128", 4, "__m128i"), "_mm256_loadu_si256": ("mm256_loadu_si256", 8, "__m256i"),
+             "_mm512_loadu_si512": ("mm512_loadu_si512", 16, "__m512i")}
+
+    def loader(self, fname):
+        """file-local `loadu`: one unaligned load through a byte pointer -> (coq name, lanes), else None"""
+        if not hasattr(self, "loaders"):
+            self.loaders = {}
+        if fname in self.loaders:
+            return self.loaders[fname]
+        r = None
+        if fname not in INTRINSICS and not fname.startswith("_mm") and re.fullmatch(r"[A-Za-z_]\w*", fname):
+            if self.lang == "c":
+                pat = (r"(?:\bINLINE|\bstatic\s+inline|\bstatic)\s+(__m\d+i)\s+" + re.escape(fname) +
+                       r"\s*\(\s*const\s+uint8_t\s+(\w+)\s*\[\s*\d+\s*\]\s*\)\s*\{\s*return\s+(_mm\d*_loadu_si\d+)\s*\(\s*"
+                       r"\(\s*(?:const\s+__m\d+i\s*\*|void\s*\*)\s*\)\s*\2\s*\)\s*;\s*\}")
+                ms = [(m.group(1), m.group(3)) for m in re.finditer(pat, self.text)]
+            else:
+                pat = (r"\bfn\s+" + re.escape(fname) + r"\s*\(\s*(\w+)\s*:\s*\*const\s+u8\s*\)\s*->\s*(__m\d+i)\s*\{\s*"
+                       r"(?:unsafe\s*\{\s*)?(_mm\d*_loadu_si\d+)\s*\(\s*\1\s+as\s+\*const\s+(__m\d+i)\s*\)\s*\}?\s*\}")
+                ms = [(m.group(2), m.group(3)) for m in re.finditer(pat, self.text) if m.group(2) == m.group(4)]
+            if len(ms) == 1 and ms[0][1] in self.LOADS and self.LOADS[ms[0][1]][2] == ms[0][0]:
+                intr, lanes, _ = self.LOADS[ms[0][1]]
+                coq = f"{self.prefix}_{fname}"
+                self.order.append(f"(* {self.rel}: {fname} *)\nDefinition {coq} (src : list N) (src_off : nat) : vec :=\n"
+                                  f"  ({intr} src src_off).\n")
+                self.used.add(ms[0][1])
+                r = (coq, lanes)
+        self.loaders[fname] = r
+        return r
+
+    def nat_expr(self, ast, env, name):
+        k = ast[0]
+        if k == "num":
+            return str(ast[1])
+        if k == "var" and ast[1] in env:
+            if env[ast[1]][1] != "nat":
+                raise AnchorError(f"{name}: {ast[1]} is not a size_t / usize variable")
+            return ast[1]
+        if k == "var" and ast[1] == "DEGREE":
+            return str(self.const_usize("DEGREE", name))
+        if k == "var" and ast[1] == "BLAKE3_BLOCK_LEN" and self.lang == "c":
+            self.c_scalar(ast, env, name)               # provenance checks
+            return "(N.to_nat c_BLOCK_LEN)"
+        if k == "var" and ast[1] == "BLOCK_LEN" and self.lang == "rs":
+            self.rs_crate_const("BLOCK_LEN", name)
+            return "(N.to_nat rs_BLOCK_LEN)"
+        if k == "bin" and ast[1] in ("+", "*"):
+            return f"({self.nat_expr(ast[2], env, name)} {ast[1]} {self.nat_expr(ast[3], env, name)})"
+        if k == "call" and ast[1] == "sizeof" and self.lang == "c" and len(ast[2]) == 1 and ast[2][0][0] == "var" \
+                and ast[2][0][1] in C_VECTOR and C_VECTOR[ast[2][0][1]][0] == "v":
+            return str(4 * C_VECTOR[ast[2][0][1]][1])
+        raise AnchorError(f"{name}: unsupported offset expression {ast!r}")
+
+    def ptr_expr(self, ast, env, name):
+        """&inputs[i][off]  /  inputs[i].add(off)  ->  (byte list, offset)"""
+        if self.lang == "c" and ast[0] == "un" and ast[1] == "&" and ast[2][0] == "index":
+            base, off = ast[2][1], ast[2][2]
+        elif self.lang == "rs" and ast[0] == "meth" and ast[2] == "add" and len(ast[3]) == 1:
+            base, off = ast[1], ast[3][0]
+        else:
+            raise AnchorError(f"{name}: unsupported pointer expression {ast!r}")
+        if not (base[0] == "index" and base[1][0] == "var" and base[1][1] in env and env[base[1][1]][1] == "bytes2"
+                and base[2][0] == "num"):
+            raise AnchorError(f"{name}: unsupported pointer base {base!r}")
+        n = env[base[1][1]][0][1]
+        if n is not None and not base[2][1] < n:
+            raise AnchorError(f"{name}: input index {base[2][1]} out of bounds")
+        return f"(inp {base[1][1]} {base[2][1]})", f"({self.nat_expr(off, env, name)})%nat"
+
+    def split_items(self, body, name):
+        """top level of a block: ('stmt', text) up to each `;`, ('block', header, body) for for/if/while, ('tail', text)"""
+        items, i, n = [], 0, len(body)
+        while True:
+            while i < n and body[i].isspace():
+                i += 1
+            if i >= n:
+                return items
+            if re.match(r"(?:for|if|while)\b", body[i:]):
+                j, depth = i, 0
+                while j < n and not (body[j] == "{" and depth == 0):
+                    depth += body[j] in "([" 
+                    depth -= body[j] in ")]"
+                    j += 1
+                k, d = j, 0
+                while k < n:
+                    d += body[k] == "{"
+                    d -= body[k] == "}"
+                    if d == 0:
+                        break
+                    k += 1
+                if j >= n or k >= n:
+                    raise AnchorError(f"{name}: unbalanced block")
+                items.append(("block", " ".join(body[i:j].split()), body[j + 1:k].strip()))
+                i = k + 1
+                continue
+            j, depth = i, 0
+            while j < n and not (body[j] == ";" and depth == 0):
+                depth += body[j] in "([{"
+                depth -= body[j] in ")]}"
+                j += 1
+            if j >= n:
+                items.append(("tail", body[i:].strip()))
+                return items
+            items.append(("stmt", body[i:j].strip()))
+            i = j + 1
+
+    @staticmethod
+    def new_array(lanes, size, cur=None, whole=None, mut=True):
+        return (("a", lanes, size), {"cur": cur, "whole": whole, "mut": mut, "stored": set(), "literal": False, "sched": False})
+
+    def region(self, items, env, names, name):
+        """-> (list of (binder, term), tail text or None); env is updated"""
+        lets, squares, tail = [], {}, None
+
+        def fresh(x):
+            x = self.ident(x, name)
+            if x in names:
+                raise AnchorError(f"{name}: redeclaration of / name clash on {x}")
+            names.add(x)
+            return x
+
+        def elems(a, k, n):
+            (_, lanes, size), st = env[a]
+            if k + n > size:
+                raise AnchorError(f"{name}: slice {a}[{k}..{k + n}] out of bounds")
+            if st["whole"] is not None:
+                return [f"(vk {st['whole']} {i})" for i in range(k, k + n)]
+            if st["cur"] is None:
+                raise AnchorError(f"{name}: use of the uninitialised array {a}")
+            return st["cur"][k:k + n]
+
+        def whole_term(a):
+            (_, lanes, size), st = env[a]
+            return st["whole"] if st["whole"] is not None else "[" + "; ".join(elems(a, 0, size)) + "]"
+
+        def elementwise(a):
+            (_, lanes, size), st = env[a]
+            if st["whole"] is not None:
+                st["cur"], st["whole"] = [f"(vk {st['whole']} {i})" for i in range(size)], None
+            elif st["cur"] is None:
+                st["cur"] = [None] * size
+
+        def array_literal(text, what):
+            parts = [q.strip() for q in _split_top(text, ",", name)]
+            if parts and parts[-1] == "":
+                parts.pop()
+            es = [self.vexpr(vparse(q, name, self.lang), env, name) for q in parts]
+            kinds = {k for _, k in es}
+            if len(kinds) != 1 or next(iter(kinds))[0] != "v":
+                raise AnchorError(f"{name}: {what}: not an array of registers of one width")
+            return [e for e, _ in es], next(iter(kinds))[1]
+
+        def classify(arg):
+            arg = arg.strip()
+            if self.lang == "c":
+                m = re.fullmatch(r"&\s*([A-Za-z_]\w*)\s*\[\s*([0-9]+)\s*\]", arg)
+                if m and m.group(1) in env and env[m.group(1)][0][0] == "a":
+                    return ("slice", m.group(1), int(m.group(2)))
+                x = arg
+            else:
+                m = re.fullmatch(r"([A-Za-z_]\w*)\s*\.\s*([0-9]+)", arg)
+                if m and m.group(1) in squares:
+                    a, n, cnt = squares[m.group(1)]
+                    if not int(m.group(2)) < cnt:
+                        raise AnchorError(f"{name}: {arg}: no such sub-array")
+                    return ("slice", a, n * int(m.group(2)), n)
+                m = re.fullmatch(r"&\s*(mut\s+)?([A-Za-z_]\w*)", arg)
+                x = m.group(2) if m else arg
+                if m and not (x in env and env[x][0][0] == "a"):
+                    raise AnchorError(f"{name}: reference to {x}, which is not an array")
+                if m and m.group(1) and not env[x][1]["mut"]:
+                    raise AnchorError(f"{name}: &mut of the immutable {x}")
+            if x in env and env[x][0][0] == "a":
+                return ("whole", x)
+            if x in env and env[x][1] == "bytes2":
+                return ("bytes2", x)
+            return ("nat", self.nat_expr(vparse(arg, name, self.lang), env, name))
+
+        def call(fname, argtext, bind=None):
+            """statement `f(args)` (bind None) or `let bind = f(args)` for a function over arrays"""
+            if fname not in self.afun:
+                raise AnchorError(f"{name}: call of {fname}, which is not a translated function over arrays")
+            coq, sig, outi = self.afun[fname]
+            args = [classify(a) for a in _split_top(argtext, ",", name) if a.strip()]
+            if len(args) != len(sig):
+                raise AnchorError(f"{name}: {fname} takes {len(sig)} arguments, {len(args)} given")
+            texts, target = [], None
+            for i, (kind, a) in enumerate(zip(sig, args)):
+                if kind == "nat":
+                    if a[0] != "nat":
+                        raise AnchorError(f"{name}: {fname}: argument {i} is not an integer")
+                    texts.append(a[1] if re.fullmatch(r"\w+", a[1]) else f"({a[1]})%nat")
+                elif kind == "bytes2":
+                    if a[0] != "bytes2":
+                        raise AnchorError(f"{name}: {fname}: argument {i} is not the array of input pointers")
+                    texts.append(a[1])
+                else:
+                    tag, lanes, size = kind
+                    if a[0] == "whole":
+                        (_, al, asz), st = env[a[1]]
+                        sl = (a[1], 0, True)
+                    elif a[0] == "slice":
+                        (_, al, asz), st = env[a[1]]
+                        if len(a) == 4 and a[3] != size:
+                            raise AnchorError(f"{name}: {fname}: sub-array of {a[3]} registers, expected {size}")
+                        sl, asz = (a[1], a[2], False), size
+                    else:
+                        raise AnchorError(f"{name}: {fname}: argument {i} is not an array")
+                    if (al, asz) != (lanes, size):
+                        raise AnchorError(f"{name}: {fname}: argument {i} has {asz} x {al} lanes, expected {size} x {lanes}")
+                    if tag == "a":
+                        texts.append(whole_term(sl[0]) if sl[2] else "[" + "; ".join(elems(sl[0], sl[1], size)) + "]")
+                    if i == outi:
+                        target = (sl, size)
+            if (outi is None) != (bind is not None):
+                raise AnchorError(f"{name}: {fname}: result {'ignored' if outi is None else 'of a void function used'}")
+            term = "(" + " ".join([coq] + texts) + ")"
+            if bind is not None:
+                return term
+            (a, k, whole), size = target
+            st = env[a][1]
+            if not st["mut"]:
+                raise AnchorError(f"{name}: {fname} modifies the immutable {a}")
+            if whole:
+                lets.append((a, term))            # rebinds the name of the array
+                st["whole"], st["cur"] = a, None
+            else:
+                x = f"{a}_sq{k}"
+                if x not in names:
+                    names.add(x)
+                lets.append((x, term))
+                elementwise(a)
+                for j in range(size):
+                    st["cur"][k + j] = f"(vk {x} {j})"
+            st["stored"] |= set(range(k, k + size))
+            return None
+
+        for it in items:
+            if tail is not None:
+                raise AnchorError(f"{name}: statement after the tail expression")
+            if it[0] == "tail":
+                tail = it[1]
+                continue
+            if it[0] == "block":
+                hd, blk = it[1], " ".join(it[2].split())
+                if self.lang == "c":
+                    hm = re.fullmatch(r"for \(size_t (\w+) = 0; \1 < (\w+); \+\+\1\)", hd)
+                    bm = hm and re.fullmatch(r"_mm_prefetch\(\(const void \*\)&(\w+)\[" + hm.group(1) +
+                                             r"\]\[(\w+) \+ 256\], _MM_HINT_T0\);", blk)
+                else:
+                    hm = re.fullmatch(r"for (\w+) in 0\.\.(\w+)", hd)
+                    bm = hm and re.fullmatch(r"_mm_prefetch\( ?(\w+)\[" + hm.group(1) +
+                                             r"\]\.wrapping_add\((\w+) \+ 256\) as \*const i8, _MM_HINT_T0,? ?\);", blk)
+                if not (hm and bm and bm.group(1) in env and env[bm.group(1)][1] == "bytes2"
+                        and bm.group(2) in env and env[bm.group(2)][1] == "nat"):
+                    raise AnchorError(f"{name}: unrecognised block {hd!r} {{ {blk!r} }}")
+                continue                           # prefetch hints only: no architectural effect
+            st_ = it[1]
+            sm = re.fullmatch(r"([A-Za-z_]\w*)\s*\[\s*([0-9]+)\s*\]\s*=(?!=)\s*(.*)", st_, re.S)
+            if sm and sm.group(1) in env and env[sm.group(1)][0][0] == "a":           # arr[i] = e
+                a, i = sm.group(1), int(sm.group(2))
+                (_, lanes, size), ast_ = env[a]
+                if not ast_["mut"] or not i < size:
+                    raise AnchorError(f"{name}: bad store {st_!r}")
+                e, k = self.vexpr(vparse(sm.group(3), name, self.lang), env, name)
+                if k != ("v", lanes):
+                    raise AnchorError(f"{name}: value of kind {k} stored into {a}[{i}]")
+                x = f"{a}_{i}"
+                if x not in names:
+                    names.add(x)
+                lets.append((x, e))
+                elementwise(a)
+                ast_["cur"][i] = x
+                ast_["stored"].add(i)
+                continue
+            sm = re.fullmatch(r"([A-Za-z_]\w*)\s*\((.*)\)", st_, re.S)
+            if sm and sm.group(1) in self.afun:                                        # f(args);
+                call(sm.group(1), sm.group(2))
+                continue
+            if self.lang == "c":
+                sm = re.fullmatch(r"(__m\d+i)\s+([A-Za-z_]\w*)\s*\[\s*(\w+)\s*\]\s*(?:=\s*\{(.*)\}\s*)?", st_, re.S)
+                if sm:                                                                 # T x[n];  T x[n] = {...};
+                    t, x, n = self.c_type(sm.group(1), name), fresh(sm.group(2)), self.const_usize(sm.group(3), name)
+                    if sm.group(4) is None:
+                        env[x] = self.new_array(t[1], n)
+                    else:
+                        es, lanes = array_literal(sm.group(4), x)
+                        if lanes != t[1] or len(es) != n:
+                            raise AnchorError(f"{name}: initialiser of {x}: {len(es)} x {lanes} lanes")
+                        lets.append((x, "[" + ";\n     ".join(es) + "]"))
+                        env[x] = self.new_array(t[1], n, whole=x)
+                    continue
+                sm = re.fullmatch(r"(__m\d+i)\s+([A-Za-z_]\w*)\s*=(?!=)\s*(.*)", st_, re.S)
+                if sm:                                                                 # T x = e;
+                    t, x = self.c_type(sm.group(1), name), sm.group(2)
+                    e = self.c_rhs(sm.group(3), t, env, name)
+                    lets.append((fresh(x), e))
+                    env[x] = (t, "V")
+                    continue
+            else:
+                sm = re.fullmatch(r"let\s+([A-Za-z_]\w*)\s*=\s*mut_array_refs!\s*\(\s*&mut\s+([A-Za-z_]\w*)\s*((?:,\s*\w+\s*)+),?\s*\)", st_, re.S)
+                if sm:                                                                 # let squares = mut_array_refs!(&mut a, n, n, ..)
+                    self.rs_macro_arrayref(name)
+                    a = sm.group(2)
+                    if a not in env or env[a][0][0] != "a" or not env[a][1]["mut"]:
+                        raise AnchorError(f"{name}: mut_array_refs! of {a}")
+                    ns = {self.const_usize(q, name) for q in sm.group(3).split(",") if q.strip()}
+                    cnt = len([q for q in sm.group(3).split(",") if q.strip()])
+                    if len(ns) != 1 or next(iter(ns)) * cnt != env[a][0][2]:
+                        raise AnchorError(f"{name}: mut_array_refs! does not split {a} into equal parts")
+                    squares[fresh(sm.group(1))] = (a, next(iter(ns)), cnt)
+                    continue
+                sm = re.fullmatch(r"let\s+(mut\s+)?([A-Za-z_]\w*)\s*=(?!=)\s*(.*)", st_, re.S)
+                if sm:
+                    x, rhs = sm.group(2), sm.group(3).strip()
+                    am = re.fullmatch(r"\[(.*)\]", rhs, re.S)
+                    cm = re.fullmatch(r"([A-Za-z_]\w*)\s*\((.*)\)", rhs, re.S)
+                    if am:                                                             # let [mut] x = [e, ...];
+                        es, lanes = array_literal(am.group(1), x)
+                        lets.append((fresh(x), "[" + ";\n     ".join(es) + "]"))
+                        env[x] = self.new_array(lanes, len(es), whole=x, mut=bool(sm.group(1)))
+                    elif cm and cm.group(1) in self.afun:                              # let x = f(args): an array
+                        coq, sig, outi = self.afun[cm.group(1)]
+                        term = call(cm.group(1), cm.group(2), bind=x)
+                        lets.append((fresh(x), term))
+                        env[x] = self.new_array(self.afun_ret[cm.group(1)][0], self.afun_ret[cm.group(1)][1], whole=x,
+                                                mut=bool(sm.group(1)))
+                    else:                                                              # let x = e: a register
+                        e, k = self.vexpr(vparse(rhs, name, "rs"), env, name)
+                        lets.append((fresh(x), e))
+                        env[x] = (k, "V")
+                    continue
+            raise AnchorError(f"{name}: unrecognised statement {st_!r}")
+        return lets, tail
+
+    def rs_macro_arrayref(self, name):
+        m = find1(r"use\s+arrayref::\{([^}]*)\}", self.text, f"{name}.use arrayref")
+        if "mut_array_refs" not in [x.strip() for x in m.group(1).split(",")] or re.search(r"macro_rules!\s*mut_array_refs\b", self.text):
+            raise AnchorError(f"{name}: mut_array_refs is not arrayref's")
+
+    def msg_function(self, fname, lanes):
+        """transpose_msg_vecs*: (inputs, block_offset[, out]) -> the 16 message vectors"""
+        name = f"{self.rel}:{fname}"
+        if self.lang == "c":
+            hdr = (r"(?:\bINLINE|\bstatic\s+inline|\bstatic)\s+void\s+" + re.escape(fname) +
+                   r"\s*\(\s*const\s+uint8_t\s*\*\s*const\s*\*\s*(\w+)\s*,\s*size_t\s+(\w+)\s*,\s*(__m\d+i)\s+(\w+)\s*\[\s*16\s*\]\s*\)\s*\{")
+        else:
+            hdr = (r"\bfn\s+" + re.escape(fname) + r"\s*\(\s*(\w+)\s*:\s*&\s*\[\s*\*const\s+u8\s*;\s*(\w+)\s*\]\s*,\s*(\w+)\s*:\s*usize\s*,?\s*\)"
+                   r"\s*->\s*\[\s*(__m\d+i)\s*;\s*16\s*\]\s*\{")
+        ms = list(re.finditer(hdr, self.text))
+        if len(ms) != 1:
+            raise AnchorError(f"anchor {name}: {len(ms)} definitions found")
+        m = ms[0]
+        body = fn_body(self.text, hdr, name).strip()
+        env, names = {}, set()
+        if self.lang == "c":
+            inputs, off, ty, out = m.group(1), m.group(2), m.group(3), m.group(4)
+            t = self.c_type(ty, name)
+            env[self.ident(out, name)] = self.new_array(t[1], 16)
+            env[self.ident(inputs, name)] = (("pp", None), "bytes2")
+        else:
+            inputs, n, off, ty = m.group(1), self.const_usize(m.group(2), name), m.group(3), m.group(4)
+            t, out = self.rs_type(ty, name), None
+            if n != lanes:
+                raise AnchorError(f"{name}: {n} input pointers for {lanes} lanes")
+            env[self.ident(inputs, name)] = (("pp", n), "bytes2")
+            um = re.fullmatch(r"unsafe\s*\{(.*)\}", body, re.S)
+            if um:
+                body = um.group(1).strip()
+        if t != ("v", lanes):
+            raise AnchorError(f"{name}: vectors of {t[1]} lanes, expected {lanes}")
+        env[self.ident(off, name)] = (("u", 64), "nat")
+        names |= set(env)
+        lets, tail = self.region(self.split_items(body, name), env, names, name)
+        if self.lang == "c":
+            if tail:
+                raise AnchorError(f"{name}: trailing text {tail!r}")
+            res = out
+        else:
+            if not tail or tail not in env or env[tail][0] != ("a", lanes, 16):
+                raise AnchorError(f"{name}: the tail expression {tail!r} is not the array of 16 vectors")
+            res = tail
+        st = env[res][1]
+        if st["whole"] is None and (st["cur"] is None or None in st["cur"]):
+            raise AnchorError(f"{name}: {res} is not completely initialised")
+        result = st["whole"] if st["whole"] is not None else "[" + "; ".join(st["cur"]) + "]"
+        coq = f"{self.prefix}_{fname}"
+        d = f"(* {self.rel}: {fname} *)\nDefinition {coq} ({inputs} : list (list N)) ({off} : nat) : list vec :=\n"
+        d += "".join(f"  let {v} := {e} in\n" for v, e in lets) + f"  {result}.\n"
+        self.order.append(d)
+        if self.lang == "c":
+            self.afun[fname] = (coq, ["bytes2", "nat", ("out", lanes, 16)], 2)
+        else:
+            self.afun[fname] = (coq, ["bytes2", "nat"], None)
+            if not hasattr(self, "afun_ret"):
+                self.afun_ret = {}
+            self.afun_ret[fname] = (lanes, 16)
+        return coq
+
+    def hash_block(self, fname, lanes):
+        """hashN: the body of `for block in 0..blocks` between the `if block + 1 == blocks { block_flags |= flags_end }`
+           prologue and the `block_flags = flags` epilogue (those two, and everything outside the loop, are the
+           hand-written hashN_loop / hashN_gen of Model/Kernels.v), as a function of the loop-carried state."""
+        name = f"{self.rel}:{fname}"
+        if self.lang == "c":
+            hdr = r"\bvoid\s+" + re.escape(fname) + r"\s*\(([^()]*)\)\s*\{"
+        else:
+            hdr = r"\bfn\s+" + re.escape(fname) + r"\s*\(([^()]*)\)\s*\{"
+        ms = list(re.finditer(hdr, self.text))
+        if len(ms) != 1:
+            raise AnchorError(f"anchor {name}: {len(ms)} definitions found")
+        body = fn_body(self.text, hdr, name).strip()
+        ptypes = {}
+        for p in _split_top(ms[0].group(1), ",", name):
+            p = " ".join(p.split())
+            if not p:
+                continue
+            if self.lang == "c":
+                pm = re.fullmatch(r"(.*?)\s*\b([A-Za-z_]\w*)(\s*\[\s*\w+\s*\])?", p)
+                ty, x = (pm.group(1).strip() + (" []" if pm.group(3) else "")), pm.group(2)
+            else:
+                pm = re.fullmatch(r"([A-Za-z_]\w*)\s*:\s*(.*)", p)
+                x, ty = pm.group(1), pm.group(2).strip()
+            ptypes[x] = ty
+        if self.lang == "c":
+            want = {"inputs": "const uint8_t *const *", "blocks": "size_t", "flags": "uint8_t", "flags_start": "uint8_t",
+                    "flags_end": "uint8_t"}
+            n_inputs = None
+        else:
+            want = {"inputs": "&[*const u8; DEGREE]", "blocks": "usize", "flags": "u8", "flags_start": "u8", "flags_end": "u8"}
+            n_inputs = self.const_usize("DEGREE", name)
+            if n_inputs != lanes:
+                raise AnchorError(f"{name}: DEGREE = {n_inputs}, expected {lanes}")
+            um = re.fullmatch(r"unsafe\s*\{(.*)\}", body, re.S)
+            if um:
+                body = um.group(1).strip()
+        for x, ty in want.items():
+            if ptypes.get(x) != ty:
+                raise AnchorError(f"{name}: parameter {x} has type {ptypes.get(x)!r}, expected {ty!r}")
+        items = self.split_items(body, name)
+        flat = [" ".join(it[1].split()) for it in items if it[0] == "stmt"]
+        vt = {4: "__m128i", 8: "__m256i", 16: "__m512i"}[lanes]
+        if self.lang == "c":
+            decls = [r"%s h_vecs\[8\] = \{.*\}" % vt, r"%s counter_low_vec, counter_high_vec" % vt,
+                     r"uint8_t block_flags = flags \| flags_start"]
+            loop_hd, if_hd = r"for \(size_t block = 0; block < blocks; block\+\+\)", r"if \(block \+ 1 == blocks\)"
+        else:
+            decls = [r"let mut h_vecs = \[ ?(?:\w+\(key\[[0-7]\]\), ?){8}\]",
+                     r"let \(counter_low_vec, counter_high_vec\) = load_counters\(counter, increment_counter\)",
+                     r"let mut block_flags = flags \| flags_start"]
+            loop_hd, if_hd = r"for block in 0\.\.blocks", r"if block \+ 1 == blocks"
+        for d in decls:
+            if len([f for f in flat if re.fullmatch(d, f)]) != 1:
+                raise AnchorError(f"{name}: declaration /{d}/ not found exactly once")
+        loops = [it for it in items if it[0] == "block" and re.fullmatch(loop_hd, it[1])]
+        if len(loops) != 1:
+            raise AnchorError(f"{name}: {len(loops)} `for block` loops")
+        inner = self.split_items(loops[0][2], name)
+        if (len(inner) < 3 or inner[0][0] != "block" or not re.fullmatch(if_hd, inner[0][1])
+                or " ".join(inner[0][2].split()) != "block_flags |= flags_end;"
+                or inner[-1] != ("stmt", "block_flags = flags")):
+            raise AnchorError(f"{name}: the loop does not have the shape  if last {{ block_flags |= flags_end }} ... block_flags = flags")
+        env = {"h_vecs": self.new_array(lanes, 8, whole="h_vecs"),
+               "counter_low_vec": (("v", lanes), "V"), "counter_high_vec": (("v", lanes), "V"),
+               "block_flags": (("u", 8), "N"), "inputs": (("pp", n_inputs), "bytes2"), "block": (("u", 64), "nat")}
+        names = set(env)
+        lets, tail = self.region(inner[1:-1], env, names, name)
+        if tail:
+            raise AnchorError(f"{name}: trailing text {tail!r}")
+        st = env["h_vecs"][1]
+        if st["stored"] != set(range(8)) or st["whole"] is not None:
+            raise AnchorError(f"{name}: the block does not store all of h_vecs[0..8]")
+        coq = f"{self.prefix}_{fname}_block"
+        d = (f"(* {self.rel}: {fname}, one iteration of `for block` (without the block_flags prologue / epilogue) *)\n"
+             f"Definition {coq} (h_vecs : list vec) (counter_low_vec counter_high_vec : vec) (block_flags : N)\n"
+             f"    (inputs : list (list N)) (block : nat) : list vec :=\n")
+        d += "".join(f"  let {v} := {e} in\n" for v, e in lets) + "  [" + "; ".join(st["cur"]) + "].\n"
+        self.order.append(d)
+        return coq
 
     # ---- C -------------------------------------------------------------
     def c_type(self, words, name):
@@ -1565,12 +2316,25 @@ class VecFile:
                 if v < (1 << (w - 1 if sg == "s" else w)):
                     return (f"{hex(v) if ishex else v}%Z", (sg, w))
             raise AnchorError(f"{name}: literal {v} does not fit")
+        if k == "var" and ast[1] == "BLAKE3_BLOCK_LEN" and ast[1] not in env:
+            # blake3.h `#define BLAKE3_BLOCK_LEN 64` (gen/GenConsts.v c_BLOCK_LEN): an int constant
+            if re.search(r"#\s*define\s+BLAKE3_BLOCK_LEN\b", self.text):
+                raise AnchorError(f"{name}: file-local definition of BLAKE3_BLOCK_LEN")
+            find1(r'#\s*include\s+"blake3_impl\.h"', self.text, f"{name}.include")
+            find1(r'#\s*include\s+"blake3\.h"', strip_comments(src("c/blake3_impl.h")), "blake3_impl.h include blake3.h")
+            return "(Z.of_N c_BLOCK_LEN)", ("s", 32)
+        if (k == "index" and ast[1] == ("var", "IV") and "IV" not in env and ast[2][0] == "num" and ast[2][1] < 8):
+            # blake3_impl.h `static const uint32_t IV[8]` (gen/GenConsts.v c_IV)
+            if re.search(r"\bIV\s*\[[^\]]*\]\s*=", self.text):
+                raise AnchorError(f"{name}: file-local definition of IV")
+            find1(r'#\s*include\s+"blake3_impl\.h"', self.text, f"{name}.include")
+            return f"(Z.of_N (nth {ast[2][1]} c_IV 0))", ("u", 32)
         if k == "var":
             if ast[1] not in env:
                 raise AnchorError(f"{name}: unknown variable {ast[1]}")
             t, rep = env[ast[1]]
-            if t[0] not in "su":
-                raise AnchorError(f"{name}: {ast[1]} is not a scalar")
+            if t[0] not in "su" or rep not in ("N", "bool", "Z"):
+                raise AnchorError(f"{name}: {ast[1]} is not a scalar usable in an expression")
             return ({"N": f"(Z.of_N {ast[1]})", "bool": f"(Z.b2z {ast[1]})", "Z": ast[1]}[rep], t)
         if k == "cast":
             x, tx = self.c_scalar(ast[2], env, name)
@@ -1754,6 +2518,14 @@ class VecFile:
         if f not in [x.strip() for x in m.group(1).split(",")]:
             raise AnchorError(f"{name}: {f} is not imported from the crate root")
 
+    def rs_crate_const(self, c, name):
+        """BLOCK_LEN / IV must be the crate-level constants (gen/GenConsts.v rs_BLOCK_LEN, rs_IV)"""
+        if re.search(r"\b(?:const|static|let)\s+(?:mut\s+)?" + c + r"\b", self.text):
+            raise AnchorError(f"{name}: file-local definition of {c}")
+        m = find1(r"use\s+crate::\{([^}]*)\}", self.text, f"{name}.use")
+        if c not in [x.strip() for x in m.group(1).split(",")]:
+            raise AnchorError(f"{name}: {c} is not imported from the crate root")
+
     def rs_tenv(self, env):
         tenv = {x: t[1] for x, (t, rep) in env.items() if t[0] == "u" and t[1] > 1}
         tenv.update({"@counter_low": 32, "&counter_low": "rs_counter_low",
@@ -1768,6 +2540,16 @@ class VecFile:
             return str(ast[1])
         if ast[0] == "var" and ast[1] in env and env[ast[1]][0] == ("u", want):
             return ast[1]
+        if (ast[0] == "cast" and RS_SCALAR[ast[1]] == ("u", want) and ast[2][0] == "var" and ast[2][1] in env
+                and env[ast[2][1]][0][0] == "u" and 1 < env[ast[2][1]][0][1] <= want and env[ast[2][1]][1] == "N"):
+            return ast[2][1]                                  # `x as u32`, x: u8: the value itself
+        if ast[0] == "cast" and RS_SCALAR[ast[1]] == ("u", 32) and want == 32 and ast[2] == ("var", "BLOCK_LEN") and "BLOCK_LEN" not in env:
+            self.rs_crate_const("BLOCK_LEN", name)            # crate::BLOCK_LEN: usize, truncated to u32
+            return "(w32 rs_BLOCK_LEN)"
+        if (ast[0] == "index" and ast[1] == ("var", "IV") and "IV" not in env and ast[2][0] == "num" and ast[2][1] < 8
+                and want == 32):
+            self.rs_crate_const("IV", name)                   # crate::IV: [u32; 8]
+            return f"(nth {ast[2][1]} rs_IV 0)"
         base = self.rs_base(ast, env, name)
         tenv = self.rs_tenv(env)
         w = width_of(base, tenv)
@@ -3518,6 +4300,68 @@ def gen_c_hasher_small():
     return "\n".join(out)
 
 
+ROUND_FILES = [("src/rust_sse2.rs", "rs", "rs_sse2", [("round", "transpose_vecs", "transpose_msg_vecs", "hash4", 4)]),
+               ("src/rust_sse41.rs", "rs", "rs_sse41", [("round", "transpose_vecs", "transpose_msg_vecs", "hash4", 4)]),
+               ("src/rust_avx2.rs", "rs", "rs_avx2", [("round", "transpose_vecs", "transpose_msg_vecs", "hash8", 8)]),
+               ("c/blake3_sse2.c", "c", "c_sse2", [("round_fn", "transpose_vecs", "transpose_msg_vecs", "blake3_hash4_sse2", 4)]),
+               ("c/blake3_sse41.c", "c", "c_sse41", [("round_fn", "transpose_vecs", "transpose_msg_vecs", "blake3_hash4_sse41", 4)]),
+               ("c/blake3_avx2.c", "c", "c_avx2", [("round_fn", "transpose_vecs", "transpose_msg_vecs", "blake3_hash8_avx2", 8)]),
+               ("c/blake3_avx512.c", "c", "c_avx512",
+                [("round_fn4", "transpose_vecs_128", "transpose_msg_vecs4", "blake3_hash4_avx512", 4),
+                 ("round_fn8", "transpose_vecs_256", "transpose_msg_vecs8", "blake3_hash8_avx512", 8),
+                 ("round_fn16", "transpose_vecs_512", "transpose_msg_vecs16", "blake3_hash16_avx512", 16)])]
+
+
+def gen_kernel_rounds():
+    out = ["(* GENERATED by tools/gen_coq.py (gen_kernel_rounds) from the /repo working tree. Do not edit.\n"
+           "   The vector round function and the register transposes of every C-intrinsics and Rust-intrinsics back end,\n"
+           "   translated statement by statement (with every file-local helper they call: add/xor/rot16/rot12/rot8/rot7,\n"
+           "   interleave128, unpack_lo_128/unpack_hi_128) into terms over Model/Intrinsics.v.\n"
+           "   round: `v[i] = f(..)` is `let v<i> := f .. in`; `m[MSG_SCHEDULE[r][k]]` is `mw [] m r k` (Rust, rs_MSG_SCHEDULE)\n"
+           "   or `c_mw m r k` (C, c_MSG_SCHEDULE); the result is the final contents of v.\n"
+           "   transpose: `vecs[i]` read before any store is `vk vecs i`; the result is the final contents of vecs.\n"
+           "   transpose_msg_vecs*: a pointer `&inputs[i][off]` / `inputs[i].add(off)` is the pair (inp inputs i, off : nat);\n"
+           "   the prefetch loop (hints only) is recognised and dropped; `transpose_vecs(&out[k])` on a sub-array binds the\n"
+           "   transposed square and its rows are read back with `vk`.\n"
+           "   hashN: one iteration of the `for block` loop, as a function of the loop-carried state (h_vecs, the counter\n"
+           "   vectors, block_flags) and of (inputs, block); a call `round_fn(v, msg_vecs, r)` rebinds v. *)\n"
+           "From Coq Require Import NArith ZArith List.\n"
+           "From V Require Import Base.Res Base.Word gen.GenConsts Model.Kernels Model.Intrinsics.\n"
+           "Import ListNotations.\nOpen Scope N_scope.\n\n"]
+    used, names = set(), []
+    for rel, lang, prefix, groups in ROUND_FILES:
+        vf = VecFile(rel, lang, prefix)
+        if lang == "c":
+            pats = (r"\b(round_fn\w*)\s*\([^()]*\)\s*\{", r"\b(transpose_vecs\w*)\s*\([^()]*\)\s*\{",
+                    r"\b(transpose_msg_vecs\w*)\s*\([^()]*\)\s*\{", r"\b(blake3_hash[0-9]+_\w+)\s*\([^()]*\)\s*\{")
+        else:
+            pats = (r"\bfn\s+(round\w*)\s*\(", r"\bfn\s+(transpose_vecs\w*)\s*\(", r"\bfn\s+(transpose_msg_vecs\w*)\s*\(",
+                    r"\bfn\s+(hash[0-9]+)\s*\(")
+        for i, pat in enumerate(pats):
+            found, want = sorted(set(re.findall(pat, vf.text))), sorted(g[i] for g in groups)
+            if found != want:
+                raise AnchorError(f"{rel}: functions {found}, expected {want}")
+        for rnd, tr, tmsg, hashn, lanes in groups:
+            coq, params, ln, size = vf.array_function(rnd, "match")
+            if size != 16 or len(params) != 3 or ln != lanes:
+                raise AnchorError(f"{rel}:{rnd}: expected (v[16], m[16], r) of {lanes}-lane registers")
+            names.append(f"{coq}/{lanes}")
+        for rnd, tr, tmsg, hashn, lanes in groups:
+            coq, params, ln, size = vf.array_function(tr, "nth")
+            if size != ln or len(params) != 1 or ln != lanes:
+                raise AnchorError(f"{rel}:{tr}: expected one square array of {lanes} registers, got {size} x {ln}")
+            names.append(f"{coq}/{lanes}")
+        for rnd, tr, tmsg, hashn, lanes in groups:
+            names.append(f"{vf.msg_function(tmsg, lanes)}/{lanes}")
+        for rnd, tr, tmsg, hashn, lanes in groups:
+            names.append(f"{vf.hash_block(hashn, lanes)}/{lanes}")
+        out.extend(d + "\n" for d in vf.order)
+        used |= vf.used
+    out.append("(* translated functions and their lane counts: " + ", ".join(names) + " *)\n")
+    out.append("(* intrinsics that occur: " + ", ".join(sorted(used)) + " *)\n")
+    return "".join(out)
+
+
 def write_if_changed(path, text):
     try:
         with open(path) as f:
@@ -3633,7 +4477,8 @@ GENERATORS = [("GenConsts.v", gen_consts), ("GenFormulas.v", gen_formulas), ("Ge
               ("GenDispatch.v", gen_dispatch),
               ("GenAsmFrames.v", gen_asm_frames),
               ("GenApi.v", gen_api), ("GenB3sum.v", gen_b3sum_literals), ("GenPortable.v", gen_portable), ("GenCHasherSmall.v", gen_c_hasher_small),
-              ("GenCounters.v", gen_counters)]
+              ("GenCounters.v", gen_counters),
+              ("GenRounds.v", gen_kernel_rounds)]
 
 
 def main():
